@@ -178,65 +178,51 @@ def ord_rule(ctx):
     cmpfn = "<symbol_size::SymbolSize as core::cmp::Ord>::cmp"
     b = f.thir.get(cmpfn)
     need(b, r, cmpfn)
-    lets = T.let_env(b["body"])
-    e = T.sx(b["body"], lets)
-    # shape: Ord::cmp(key(self), key(other))
-    ok_shape = False
-    keyfn = None
-    detail = T.sx_show(e)
-    if e[0] == "call" and e[1].endswith("::cmp") and len(e[2]) == 2:
-        a, c = e[2]
-        if a[0] == "call" and c[0] == "call" and a[1] == c[1] and len(a[2]) == 1 and len(c[2]) == 1:
-            if a[2][0][:2] == ("var", "self") and c[2][0][:2] == ("var", "other"):
-                ok_shape = True
-                keyfn = a[1]
-    obs.append(Ob(r, "cmp-shape", ok_shape, "Ord::cmp compares key(self) with key(other), in that order", site=T.span_str(b["span"]), detail=detail))
+    # the whole 48 x 48 comparison table: cmp's body (and its private key helpers) folded with the extracted size tables
+    pnames = [p_["pat"]["name"] for p_ in b["params"] if p_.get("pat", {}).get("k") == "Bind"]
+    need(len(pnames) == 2, r, cmpfn, "(two plain parameters)")
+
+    def on_call(folder, e2):
+        c = T.canon(T.callee_of(e2))
+        if c == SS + "::num_data_codewords":
+            return t["data"][folder.fold(e2["args"][0])]
+        if c == SS + "::block_setup":
+            return t["setup"][folder.fold(e2["args"][0])]
+        return NotImplemented
+    tab = {}
+    und = None
+    for a in t["variants"]:
+        for c in t["variants"]:
+            try:
+                v = T.Folder(f, env={pnames[0]: a, pnames[1]: c}, on_call=on_call, effects=True, local_calls=3).run(b["body"])
+            except (T.Undecidable, T.Trap) as ex:
+                v = None
+                und = und or "cmp(%s, %s): %s" % (a, c, ex)
+            tab[(a, c)] = v.get("__variant__") if isinstance(v, dict) and v.get("__adt__") == "core::cmp::Ordering" else None
+            if tab[(a, c)] is None:
+                und = und or "cmp(%s, %s) does not fold to an Ordering" % (a, c)
+        if und:
+            break
+    obs.append(Ob(r, "cmp-evaluable", und is None, "Ord::cmp folds to an Ordering for all %d pairs of sizes" % (len(t["variants"]) ** 2), site=T.span_str(b["span"]), detail=und))
     pc = f.thir.get("<symbol_size::SymbolSize as core::cmp::PartialOrd>::partial_cmp")
     need(pc, r, "PartialOrd::partial_cmp")
     pe = T.sx(pc["body"], T.let_env(pc["body"]))
     okp = pe[0] == "adt" and pe[2] == "Some" and pe[3][0][1][0] == "call" and pe[3][0][1][1].endswith("Ord>::cmp") \
         and [a[:2] for a in pe[3][0][1][2]] == [("var", "self"), ("var", "other")]
     obs.append(Ob(r, "partial_cmp", okp, "partial_cmp is Some(self.cmp(other))", detail=T.sx_show(pe)))
-    if not keyfn:
-        return obs
-    kb = None
-    for name, body in f.thir.items():
-        if T.canon(name) == keyfn:
-            kb = body
-    need(kb, r, keyfn)
-    # evaluate the key per variant with the extracted tables
-    param = kb["params"][0]["pat"]["name"]
-
-    def on_call(folder, e2):
-        c = T.canon(T.callee_of(e2))
-        if c == SS + "::num_data_codewords":
-            v = folder.fold(e2["args"][0])
-            return t["data"][v]
-        if c == SS + "::block_setup":
-            v = folder.fold(e2["args"][0])
-            return t["setup"][v]
-        if c.endswith("::pow"):
-            return folder.fold(e2["args"][0]) ** folder.fold(e2["args"][1])
-        return NotImplemented
-
-    keys = {}
-    for v in t["variants"]:
-        fo = T.Folder(f, env={param: v}, on_call=on_call)
-        try:
-            keys[v] = fo.fold(kb["body"])
-        except (T.Undecidable, T.Trap) as ex:
-            keys[v] = ("undecidable", str(ex))
-    und = {v: k for v, k in keys.items() if not (isinstance(k, tuple) and all(isinstance(x, int) for x in k))}
-    obs.append(Ob(r, "key-evaluable", not und, "key() reduces to a tuple of integers for all 48 variants", detail=und))
     if und:
         return obs
-    first_ok = all(keys[v][0] == t["data"][v] for v in keys)
-    obs.append(Ob(r, "key-first", first_ok, "first key component is the number of data codewords (so set order = non-decreasing capacity)"))
-    inv = {}
-    for v, k in keys.items():
-        inv.setdefault(k, []).append(v)
-    dup = {str(k): vs for k, vs in inv.items() if len(vs) > 1}
-    obs.append(Ob(r, "key-distinct", not dup, "keys of the 48 sizes are pairwise distinct (Ord agrees with Eq; the BTreeSet drops nothing)", detail=dup))
+    V = t["variants"]
+    d = t["data"]
+    bad = [(a, c) for a in V for c in V if (d[a] < d[c] and tab[(a, c)] != "Less") or (d[a] > d[c] and tab[(a, c)] != "Greater")]
+    obs.append(Ob(r, "key-first", not bad, "the order is by number of data codewords first: fewer data codewords always compares Less (so set order = non-decreasing capacity)", detail=bad[:4]))
+    bad = [(a, c) for a in V for c in V if (tab[(a, c)] == "Equal") != (a == c)]
+    obs.append(Ob(r, "key-distinct", not bad, "cmp is Equal only for identical sizes (Ord agrees with Eq; the BTreeSet drops nothing)", detail=bad[:4]))
+    rev = {"Less": "Greater", "Greater": "Less", "Equal": "Equal"}
+    bad = [(a, c) for a in V for c in V if tab[(a, c)] != rev[tab[(c, a)]]]
+    rank = {a: sum(1 for c in V if tab[(c, a)] == "Less") for a in V}
+    bad2 = [(a, c) for a in V for c in V if (tab[(a, c)] == "Less") != (rank[a] < rank[c])]
+    obs.append(Ob(r, "total-order", not bad and not bad2, "cmp is antisymmetric and transitive on the 48 sizes (a strict total order, as BTreeSet requires)", detail=(bad + bad2)[:4]))
     # storage is a BTreeSet<SymbolSize>
     adt = f.adts.get(SL)
     need(adt, r, SL)
@@ -272,8 +258,12 @@ def prov_filter(ctx):
         obs.append(Ob(r, key, ok, what, site=T.span_str(b["span"]) if b else None, detail=detail))
 
     # default(): SYMBOL_SIZES filtered by !is_dmre
-    e, b = _body_sx(f, "<symbol_size::SymbolList as core::default::Default>::default", r)
+    dname = "<symbol_size::SymbolList as core::default::Default>::default"
+    e, b = _body_sx(f, dname, r)
     ok = False
+
+    def not_dmre(ce, var):
+        return ce[0] == "un" and ce[1] == "Not" and ce[2][0] == "call" and ce[2][1] == SS + "::is_dmre" and (var is None or ce[2][2][0][:2] == ("var", var))
     filt = T.sx_calls(e, "Iterator::filter")
     if e[0] == "call" and e[1].endswith("SymbolList::with_whitelist") and filt:
         fl = filt[0]
@@ -281,7 +271,26 @@ def prov_filter(ctx):
         srcs = [x for x in T.sx_walk(src) if x[0] == "const"]
         if srcs and srcs[0][1] == "symbol_size::SYMBOL_SIZES" and fl[2][1][0] == "closure":
             ce, _ = _closure_sx(f, fl[2][1][1], r)
-            ok = ce[0] == "un" and ce[1] == "Not" and ce[2][0] == "call" and ce[2][1] == SS + "::is_dmre"
+            ok = not_dmre(ce, None)
+    else:
+        # explicit loop: let mut set = BTreeSet::new(); for s in SYMBOL_SIZES { if !s.is_dmre() { set.insert(*s); } } Self { symbols: set }
+        ds = T.stmts(b["body"], {})
+        news = [st for st in ds if st[0] == "let" and st[3][0] == "call" and st[3][1].endswith("BTreeSet::new")]
+        loops = [st for st in ds if st[0] == "for"]
+        if len(news) == 1 and len(loops) == 1 and len(ds) == 3 and ds[-1][0] == "expr":
+            setv = news[0][1].split("#")[0]
+            lp = loops[0]
+            src_ok = any(x[0] == "const" and x[1] == "symbol_size::SYMBOL_SIZES" for x in T.sx_walk(lp[2])) and not T.sx_calls(lp[2], "::skip") \
+                and not T.sx_calls(lp[2], "::take") and not T.sx_calls(lp[2], "::filter") and not T.sx_calls(lp[2], "::step_by")
+            ev = lp[1][0].split("#")[0] if len(lp[1]) == 1 else None
+            body = lp[3]
+            ins_ok = len(body) == 1 and body[0][0] == "if" and not body[0][3] and not_dmre(body[0][1], ev) and len(body[0][2]) == 1 \
+                and body[0][2][0][0] == "expr" and body[0][2][0][1][0] == "call" and body[0][2][0][1][1].endswith("BTreeSet::insert") \
+                and body[0][2][0][1][2][0][:2] == ("var", setv) and body[0][2][0][1][2][1][:2] == ("var", ev)
+            res = ds[-1][1]
+            res_ok = res[0] == "adt" and res[1] == SL and len(res[3]) == 1 and res[3][0][0] == "symbols" and res[3][0][1][:2] == ("var", setv)
+            ok = src_ok and ins_ok and res_ok
+            e = ("loop-form",)
     ob("default", ok, "default() = SYMBOL_SIZES filtered by !is_dmre", b, T.sx_show(e))
 
     # with_extended_rectangles(): all of SYMBOL_SIZES
@@ -306,50 +315,99 @@ def prov_filter(ctx):
 
     # retain-based filters
     def retain_closure(fn):
+        """(body, receiver sx, predicate sx, substitution): the one `retain` call of fn, or of the private helper fn
+        delegates to (then the substitution maps the helper's parameters to fn's arguments)"""
         b = f.thir.get(fn)
         need(b, r, fn)
         rc = [c for c in T.calls(b["body"]) if T.canon(T.callee_of(c)).endswith("BTreeSet::retain")]
+        sub = {}
+        if not rc:
+            e0 = T.sx(b["body"], T.let_env(b["body"]))
+            hb = None
+            if e0[0] == "call":
+                for n, bb in f.thir.items():
+                    if T.canon(n) == e0[1] and n.startswith(SL + "::"):
+                        hb = bb
+            if hb is not None and len(hb["params"]) == len(e0[2]) and e0[2][0][:2] == ("var", "self"):
+                for p_, a in zip(hb["params"], e0[2]):
+                    pat = p_.get("pat") or {}
+                    if pat.get("k") == "Bind":
+                        sub[pat["name"]] = a
+                rc = [c for c in T.calls(hb["body"]) if T.canon(T.callee_of(c)).endswith("BTreeSet::retain")]
+                tail = T.stmts(hb["body"], {})
+                need(tail and tail[-1][0] == "expr" and tail[-1][1][:2] == ("var", "self"), r, fn, "(delegate must return self)")
         need(len(rc) == 1, r, fn, "(expected exactly one retain call)")
         recv = T.sx(rc[0]["args"][0])
         pred = T.sx(rc[0]["args"][1])
-        return b, recv, pred
+        return b, recv, pred, sub
 
-    b, recv, pred = retain_closure(SL + "::enforce_square")
+    def pred_body(pred, sub):
+        """closure predicate as (parameter name, body sx) with a delegating helper's parameters substituted and closure
+        arguments beta-reduced"""
+        cb = T.closure_body_sx(f, pred[1])
+        need(cb and len(cb[0]) == 1, r, pred[1])
+        return cb[0][0].split("#")[0], T.beta(f, T.subst_sx(cb[1], sub))
+
+    b, recv, pred, sub = retain_closure(SL + "::enforce_square")
     ok = _is_symbols_of_self(recv) and pred == ("fn", SS + "::is_square")
+    if not ok and _is_symbols_of_self(recv) and pred[0] == "closure":
+        pv, ce = pred_body(pred, sub)
+        ok = ce[0] == "call" and ce[1] == SS + "::is_square" and ce[2][0][:2] == ("var", pv)
     ob("enforce_square", ok, "enforce_square retains by is_square", b, T.sx_show(pred))
 
-    b, recv, pred = retain_closure(SL + "::enforce_rectangular")
+    b, recv, pred, sub = retain_closure(SL + "::enforce_rectangular")
     ok = False
     if _is_symbols_of_self(recv) and pred[0] == "closure":
-        ce, _ = _closure_sx(f, pred[1], r)
-        ok = ce[0] == "un" and ce[1] == "Not" and ce[2][0] == "call" and ce[2][1] == SS + "::is_square" and ce[2][2][0][:2] == ("var", "s")
+        pv, ce = pred_body(pred, sub)
+        ok = ce[0] == "un" and ce[1] == "Not" and ce[2][0] == "call" and ce[2][1] == SS + "::is_square" and ce[2][2][0][:2] == ("var", pv)
     ob("enforce_rectangular", ok, "enforce_rectangular retains by !is_square", b, T.sx_show(pred))
 
     for fn, field in ((SL + "::enforce_width_in", "width"), (SL + "::enforce_height_in", "height")):
-        b, recv, pred = retain_closure(fn)
+        b, recv, pred, sub = retain_closure(fn)
         ok = False
         det = None
-        if _is_symbols_of_self(recv) and pred[0] == "closure":
-            ce, _ = _closure_sx(f, pred[1], r)
+        bname = [p_["pat"]["name"].split("#")[0] for p_ in b["params"][1:2] if p_.get("pat", {}).get("k") == "Bind"]
+        if _is_symbols_of_self(recv) and pred[0] == "closure" and bname:
+            pv, ce = pred_body(pred, sub)
             det = T.sx_show(ce)
             if ce[0] == "call" and ce[1].endswith("RangeBounds::contains") and len(ce[2]) == 2:
                 rng, item = ce[2]
-                ok = rng[:2] == ("var", "bounds") and item[0] == "field" and item[2] == field \
-                    and item[1][0] == "call" and item[1][1] == SS + "::block_setup" and item[1][2][0][:2] == ("var", "s")
+                ok = rng[:2] == ("var", bname[0]) and item[0] == "field" and item[2] == field \
+                    and item[1][0] == "call" and item[1][1] == SS + "::block_setup" and item[1][2][0][:2] == ("var", pv)
         ob(fn.split("::")[-1], ok, "%s retains by bounds.contains(&block_setup().%s)" % (fn.split("::")[-1], field), b, det)
 
     # first_symbol_big_enough_for
-    e, b = _body_sx(f, SL + "::first_symbol_big_enough_for", r)
+    fsb = SL + "::first_symbol_big_enough_for"
+    e, b = _body_sx(f, fsb, r)
     ok = False
     det = T.sx_show(e)
+    pn = [p_["pat"]["name"].split("#")[0] for p_ in b["params"][1:2] if p_.get("pat", {}).get("k") == "Bind"]
+    pn = pn[0] if pn else "size_needed"
     if e[0] == "call" and e[1].endswith("Option::copied"):
         fnd = e[2][0]
         if fnd[0] == "call" and fnd[1] == "core::iter::Iterator::find":
             it, cl = fnd[2]
             if it[0] == "call" and it[1].endswith("BTreeSet::iter") and _is_symbols_of_self(it[2][0]) and cl[0] == "closure":
-                ce, _ = _closure_sx(f, cl[1], r)
-                det = T.sx_show(ce)
-                ok = _cmp_ge_data(ce, "size_needed")
+                cb = T.closure_body_sx(f, cl[1])
+                if cb and len(cb[0]) == 1:
+                    det = T.sx_show(cb[1])
+                    ok = _cmp_ge_data(cb[1], pn, cb[0][0].split("#")[0])
+    else:
+        # for s in self.symbols.iter() { if s.num_data_codewords() >= n { return Some(*s); } } None
+        ds = T.stmts(b["body"], {})
+        if len(ds) == 2 and ds[0][0] == "for" and ds[1][0] == "expr" and ds[1][1][0] == "adt" and ds[1][1][2] == "None":
+            lp = ds[0]
+            it = lp[2]
+            while it[0] == "call" and it[1].endswith("into_iter"):
+                it = it[2][0]
+            ev = lp[1][0].split("#")[0] if len(lp[1]) == 1 else None
+            src_ok = (it[0] == "call" and it[1].endswith("BTreeSet::iter") and _is_symbols_of_self(it[2][0])) or _is_symbols_of_self(it)
+            body = lp[3]
+            if src_ok and len(body) == 1 and body[0][0] == "if" and not body[0][3] and len(body[0][2]) == 1 and body[0][2][0][0] == "return":
+                rv = body[0][2][0][1]
+                ret_ok = rv is not None and rv[0] == "adt" and rv[2] == "Some" and rv[3][0][1][:2] == ("var", ev)
+                det = T.sx_show(body[0][1])
+                ok = ret_ok and _cmp_ge_data(body[0][1], pn, ev)
     ob("first_symbol_big_enough_for", ok, "first_symbol_big_enough_for = first in set order with num_data_codewords() >= size_needed", b, det)
 
     # iter / into_iter / contains / is_empty / extend delegate to the set
@@ -393,13 +451,13 @@ def prov_filter(ctx):
     return obs
 
 
-def _cmp_ge_data(ce, param):
+def _cmp_ge_data(ce, param, elem="s"):
     """closure body equivalent to s.num_data_codewords() >= param"""
     if ce[0] != "bin":
         return False
     op, a, c = ce[1], ce[2], ce[3]
     def is_data(x):
-        return x[0] == "call" and x[1] == SS + "::num_data_codewords" and x[2][0][:2] == ("var", "s")
+        return x[0] == "call" and x[1] == SS + "::num_data_codewords" and x[2][0][:2] == ("var", elem)
     def is_param(x):
         return x[:2] == ("var", param)
     if is_data(a) and is_param(c):
